@@ -36,7 +36,7 @@ def fill(register, pending):
              'deterministic simulation: seeded stateful histories with before/after observation snapshots and weakref/gc oracles',
              'DESIGN.md section 4 (C14)', 'checks/c14_alias.py')
     register('C12', 'exploration',
-             'seeded histories (thorough: plus an exhaustive sweep of all histories of length <= 2 over a 14-symbol alphabet) of '
+             'seeded histories (thorough: plus an exhaustive sweep of all 2 954 histories of length <= 3 over a 14-symbol alphabet) of '
              'register / register_class / dataclass / unregister with argument faults, warnings-as-errors, raising warning hooks and '
              'raising metaclass hooks, applied to the real registry and to a map model; behaviour, Python mirror (get with and '
              'without class, tree_flatten_one_level) and engine snapshot compared with the model after every step, atomicity after '
